@@ -125,6 +125,22 @@ def handleClean (j : Json) : Except String Json := do
   let p ← j.getObjValAs? String "p"
   return Json.mkObj [("clean", String.ofList (Path.cleanFn p.toList)), ("lexiclean", String.ofList (Path.lexiclean p.toList))]
 
+/-- {"op":"entries","decls":[Decl],"aliases":[AliasOf]} → the `--list` entries of each recipe -/
+def handleEntries (j : Json) : Except String Json := do
+  -- "docAttr": null = no attribute, {"v": null} = bare `[doc]`, {"v": S} = `[doc(S)]`
+  let dsJ ← (← j.getObjVal? "decls").getArr?
+  let ds ← dsJ.toList.mapM (fun dj => do
+    let docAttr : Option (Option String) ← match dj.getObjVal? "docAttr" with
+      | .ok (.obj _) => do
+        let v : Option String ← fromJson? ((dj.getObjVal? "docAttr" >>= (·.getObjVal? "v")).toOption.getD Json.null)
+        pure (some v)
+      | _ => pure none
+    pure ({ name := ← dj.getObjValAs? String "name", params := ← fromJson? (← dj.getObjVal? "params"),
+            comment := ← fromJson? (← dj.getObjVal? "comment"), docAttr := docAttr,
+            groups := ← fromJson? (← dj.getObjVal? "groups"), isPrivate := ← dj.getObjValAs? Bool "isPrivate" } : Listing.Decl))
+  let as : List Listing.AliasOf ← fromJson? (← j.getObjVal? "aliases")
+  return Json.mkObj [("entries", toJson (ds.map (fun d => Listing.entriesOf as d)))]
+
 def handleWorkdir (j : Json) : Except String Json := do
   let c : Workdir.Ctx ← fromJson? (← j.getObjVal? "ctx")
   let a : Workdir.Attrs ← fromJson? (← j.getObjVal? "attrs")
@@ -528,6 +544,7 @@ def handle (line : String) : Json :=
       | "define" => handleDefine j
       | "table" => handleTable j
       | "clean" => handleClean j
+      | "entries" => handleEntries j
       | "args" => handleArgs j
       | "childenv" => handleChildEnv j
       | "workdir" => handleWorkdir j
